@@ -167,14 +167,32 @@ theorem C03_helicity_coupling_parity_partial (J s1 s2 : Nat) (PP : Int) (terms :
           * coupling Ampverif.Gen.C03CG.table J s1 s2 terms l1 l2 :=
   coupling_flip _ C03_cg_table_symmetric_partial J s1 s2 PP terms hL l1 l2
 
-/-- The full-strength statement of the CG symmetry (ALL spins, CG given by Racah's closed
-formula `Lemmas.C03CG.racah`): stated, NOT proved — Mathlib has no Clebsch–Gordan theory; the
-proved part is `C03_cg_parity_partial`, bounded by the regenerated table. -/
+/-- The full-strength statement of the CG symmetry: ALL spins, CG given by Racah's closed formula
+`Lemmas.C03CG.racah` (the formula SymPy's `clebsch_gordan` implements; the harness checks on every
+run that a transcription of this formula reproduces the regenerated table to 1e-12). -/
 def C03_cg_parity_full_statement : Prop :=
   ∀ (j1 : Nat) (m1 : Int) (j2 : Nat) (m2 : Int) (J : Nat) (M : Int),
     Ampverif.Lemmas.C03CG.racah j1 (-m1) j2 (-m2) J (-M)
       = (Ampverif.Model.C03CG.phase ((j1 : Int) + (j2 : Int) - (J : Int)) : ℝ)
           * Ampverif.Lemmas.C03CG.racah j1 m1 j2 m2 J M
+
+/-- **The mirror symmetry for ALL spins** (Racah's formula; reflection `k ↦ j₁+j₂−J−k` of the sum). -/
+theorem C03_cg_parity_all_spins : C03_cg_parity_full_statement :=
+  Ampverif.Lemmas.C03CG.racah_flip
+
+open Ampverif.Model.C03CG Ampverif.Lemmas.C03CG in
+/-- **The "equivalently" clause for ALL spins**, with the CG values of Racah's formula: helicity
+couplings expanded from ANY LS coefficients with `(−1)^L = P·P₁·P₂` satisfy
+`F_{−λ₁,−λ₂} = η F_{λ₁λ₂}`, `η = P P₁ P₂ (−1)^(s₁+s₂−J)`. -/
+theorem C03_helicity_coupling_parity_all_spins (J s1 s2 : Nat) (PP : Int) (terms : List LSTerm)
+    (hL : ∀ x ∈ terms, phase (x.L : Int) = PP ∧ (x.L : Int) % 2 = 0
+      ∧ ((x.L : Int) + (x.S : Int) - (J : Int)) % 2 = 0
+      ∧ ((s1 : Int) + (s2 : Int) - (x.S : Int)) % 2 = 0)
+    (l1 l2 : Int) :
+    couplingF racah J s1 s2 terms (-l1) (-l2)
+      = ((PP * phase ((s1 : Int) + (s2 : Int) - (J : Int)) : Int) : ℂ)
+          * couplingF racah J s1 s2 terms l1 l2 :=
+  couplingF_flip racah racah_flip J s1 s2 PP terms hL l1 l2
 
 /-- Non-vacuity of the table: `⟨½ ½; ½ −½ | 0 0⟩ = +√(1/2)` and its mirror `−√(1/2)`. -/
 example :
